@@ -131,6 +131,18 @@ func groupCorpus() []groupCase {
 		groupCase{"replaces-bad-version", []pkgDesc{{"a", "1", "oa", 1, []string{"b>1"}}, {"b", "not a version", "ob", 1, nil}}, 2},
 		groupCase{"replaces-bad-constraint", []pkgDesc{{"a", "1", "oa", 1, []string{"b>!!"}}, {"b", "1.0", "ob", 1, nil}}, 2},
 		groupCase{"empty-origin", []pkgDesc{{"a", "1", "", 1, nil}, {"b", "1", "", 1, nil}, {"c", "1", "c", 1, nil}}, 1},
+		// group.size is a uint64 (c10_size_wraps, c10_groups_descending_true_size_refuted): two packages of one origin with
+		// InstalledSize 2^63 each have key 0 and sort last; max+1 wraps to 0; two wrapped keys tie and fall back to the name
+		groupCase{"size-wraps-two-halves-budget-4", []pkgDesc{{"a", "1", "big", 1 << 63, nil}, {"b", "1", "big", 1 << 63, nil}, {"c", "1", "c", 1, nil}, {"d", "1", "d", 2, nil}}, 4},
+		groupCase{"size-wraps-two-halves-budget-2", []pkgDesc{{"a", "1", "big", 1 << 63, nil}, {"b", "1", "big", 1 << 63, nil}, {"c", "1", "c", 1, nil}, {"d", "1", "d", 2, nil}}, 2},
+		groupCase{"size-wraps-max-plus-one", []pkgDesc{{"x", "1", "o", 1<<64 - 1, nil}, {"y", "1", "o", 1, nil}, {"z", "1", "z", 0, nil}, {"w", "1", "w", 5, nil}}, 2},
+		groupCase{"size-wraps-to-a-tie", []pkgDesc{{"p", "1", "o", 1<<63 + 7, nil}, {"q", "1", "o", 1 << 63, nil}, {"r", "1", "r", 7, nil}, {"s", "1", "s", 1<<64 - 1, nil}}, 3},
+		groupCase{"size-wraps-through-replaces", []pkgDesc{{"m", "1", "om", 1<<64 - 2, []string{"n"}}, {"n", "1", "on", 3, nil}, {"k", "1", "ok", 2, nil}}, 2},
+		// packages WITHOUT an origin share byOrigin[""]; merging through replaces into and out of that group
+		groupCase{"empty-origin-replaces-named", []pkgDesc{{"a", "1", "", 5, []string{"c"}}, {"b", "1", "", 6, nil}, {"c", "1", "oc", 100, nil}, {"d", "1", "od", 50, nil}}, 3},
+		groupCase{"named-replaces-empty-origin", []pkgDesc{{"a", "1", "", 5, nil}, {"b", "1", "", 6, nil}, {"c", "1", "oc", 100, []string{"a"}}, {"d", "1", "od", 50, []string{"zz"}}}, 3},
+		groupCase{"empty-origin-only-replaces-each-other", []pkgDesc{{"a", "1", "", 5, []string{"b"}}, {"b", "1", "", 6, []string{"a"}}, {"c", "1", "", 7, nil}}, 2},
+		groupCase{"empty-origin-chain", []pkgDesc{{"a", "1", "", 1, []string{"x"}}, {"x", "2", "ox", 1, []string{"y<3"}}, {"y", "2.5", "", 1, nil}, {"z", "1", "oz", 9, nil}, {"w", "1", "ow", 8, nil}}, 3},
 		groupCase{"replaces-merges-across-budget", []pkgDesc{{"a", "1", "oa", 100, []string{"e"}}, {"b", "1", "ob", 90, nil}, {"c", "1", "oc", 80, nil}, {"d", "1", "od", 70, nil}, {"e", "1", "oe", 1, nil}}, 2},
 	)
 	return cs
@@ -146,6 +158,12 @@ func genPkgs(r *gal.Rand, n int, bad bool) []pkgDesc {
 			Origin:  gal.Pick(r, origins[:1+r.Intn(len(origins))]), Size: uint64(gal.Pick(r, []int{0, 1, 10, 10, 10, 100, 1000, 4096, 1 << 20}))}
 		if r.Chance(1, 3) {
 			p.Origin = p.Name
+		}
+		if r.Chance(1, 6) {
+			p.Origin = "" // packages without an origin
+		}
+		if r.Chance(1, 12) {
+			p.Size = gal.Pick(r, []uint64{1 << 63, 1<<63 + 1, 1<<64 - 1, 1 << 62, 1<<63 - 1, 1<<64 - 4096})
 		}
 		if bad && r.Chance(1, 10) {
 			p.Version = gal.Pick(r, []string{"", "bogus!", "1..2"})
@@ -273,13 +291,43 @@ func splitCorpus() []splitCase {
 		// a file after a deeper sibling subtree: the main stack still holds the stale subtree
 		splitCase{Name: "stale-stack", FS: tarcase.FSCase{Backend: "tarfs", Ops: []tarcase.Op{hd("a", 0o755, t0), hd("a/b", 0o755, t0+1), hd("a/b/c", 0o755, t0+2),
 			hf("a/b/c/x", "a", 1, t0+3), hf("a/z", "b", 1, t0+4), hf("b", "c", 1, t0+5), hd("c", 0o755, t0+6), hf("c/y", "a", 1, t0+7)}}, Pkgs: three, Budget: 3},
+		// recorded hard links across directories, a link naming another link, many names of one file (busybox style), a link
+		// to a character device is not expressible through WriteHeader on a package file, so: regular targets only
+		// (c10_flatten_walk_links; every link lands in its target's layer: c10_layers_self_contained)
+		splitCase{Name: "hardlinks-across-directories", FS: tarcase.FSCase{Backend: "tarfs", Ops: []tarcase.Op{
+			hd("bin", 0o755, t0), hf("bin/busybox", "a", 9, t0+1),
+			{Path: "bin/sh", Kind: "link", Via: "hdr", Target: "bin/busybox", Sec: t0 + 1, Pkg: "a"},
+			{Path: "bin/vi", Kind: "link", Via: "hdr", Target: "bin/sh", Sec: t0 + 1, Pkg: "a"},
+			hf("bin/other", "b", 3, t0+2),
+			hd("sbin", 0o755, t0), {Path: "sbin/init", Kind: "link", Via: "hdr", Target: "bin/busybox", Sec: t0 + 1, Pkg: "a"},
+			hf("sbin/real", "c", 3, t0+2), {Path: "sbin/real2", Kind: "link", Via: "hdr", Target: "sbin/real", Sec: t0 + 2, Pkg: "c"},
+			hd("usr", 0o755, t0), hd("usr/bin", 0o755, t0), {Path: "usr/bin/env", Kind: "link", Via: "hdr", Target: "bin/busybox", Sec: t0 + 1, Pkg: "a"},
+			af("usr/bin/unowned", 1, t0+3)}}, Pkgs: three, Budget: 3},
+		// sibling directories where one name is a string prefix of the other; files of different packages in each
+		splitCase{Name: "prefix-siblings", FS: tarcase.FSCase{Backend: "tarfs", Ops: []tarcase.Op{
+			hd("usr", 0o755, t0), hd("usr/lib", 0o755, t0+1), hf("usr/lib/a", "a", 1, t0+2), hd("usr/lib/x", 0o755, t0+1), hf("usr/lib/x/deep", "b", 1, t0+2),
+			hd("usr/lib64", 0o755, t0+3), hf("usr/lib64/b", "b", 1, t0+4), hd("usr/libexec", 0o755, t0+5), hf("usr/libexec/c", "c", 1, t0+6),
+			hd("usr/libexec/lib", 0o755, t0+5), hf("usr/libexec/lib/a", "a", 1, t0+6),
+			hd("usr/li", 0o755, t0+7), hf("usr/li/a", "a", 1, t0+8), hf("usr/lib.so", "c", 1, t0+9), hf("usr/lib-x", "b", 1, t0+9),
+			hd("us", 0o755, t0), hf("us/r", "c", 1, t0), hd("usr2", 0o755, t0), af("usr2/f", 1, t0)}}, Pkgs: three, Budget: 3},
+		splitCase{Name: "prefix-siblings-budget-1", FS: tarcase.FSCase{Backend: "tarfs", Ops: []tarcase.Op{
+			hd("a", 0o755, t0), hd("a/b", 0o755, t0), hf("a/b/f", "a", 1, t0), hd("a/bc", 0o755, t0), hf("a/bc/f", "b", 1, t0),
+			hd("a/bcd", 0o755, t0), af("a/bcd/f", 1, t0), hd("ab", 0o755, t0), hf("ab/f", "c", 1, t0), hd("ab/b", 0o755, t0), hf("ab/b/f", "a", 1, t0)}}, Pkgs: three, Budget: 1},
+		// a package that ships symbolic links only (installed size 0) next to a package with files
+		splitCase{Name: "symlink-only-package", FS: tarcase.FSCase{Backend: "tarfs", Ops: []tarcase.Op{
+			hd("bin", 0o755, t0), hf("bin/busybox", "b", 9, t0+1),
+			{Path: "bin/ls", Kind: "sym", Via: "hdr", Target: "/bin/busybox", Sec: t0 + 2, Pkg: "links"},
+			{Path: "bin/cat", Kind: "sym", Via: "hdr", Target: "busybox", Sec: t0 + 2, Pkg: "links"},
+			hd("usr", 0o755, t0), hd("usr/bin", 0o755, t0), {Path: "usr/bin/ls", Kind: "sym", Via: "hdr", Target: "../../bin/busybox", Sec: t0 + 2, Pkg: "links"}}},
+			Pkgs: []pkgDesc{{"b", "1", "ob", 9, nil}, {"links", "1", "olinks", 0, nil}, {"c", "1", "", 0, nil}}, Budget: 3},
 		// ownership refers to a package that is in no group: packageToWriter[...] missing => panic (model agrees)
 		splitCase{Name: "owner-not-in-groups", FS: tarcase.FSCase{Backend: "tarfs", Ops: []tarcase.Op{hd("d", 0o755, t0), hf("d/f", "a", 1, t0), hf("d/g", "b", 1, t0)}}, Pkgs: three, Budget: 3, Drop: "b"},
 	)
 	return cs
 }
 
-var namePool = []string{"a", "b", "bin", "etc", "lib", "usr", "x-y", "x.y", "x", "X", "0", "z", "share", "a b", "\xc3\xa9", "_", "zz", "libfoo.so.1"}
+var namePool = []string{"a", "b", "bin", "etc", "lib", "usr", "x-y", "x.y", "x", "X", "0", "z", "share", "a b", "\xc3\xa9", "_", "zz", "libfoo.so.1",
+	"lib64", "libexec", "li", "ab", "a.b", "usr2"}
 
 func genSplit(r *gal.Rand, i int, tier string) splitCase {
 	np := r.Intn(7)
@@ -323,7 +371,7 @@ func genSplit(r *gal.Rand, i int, tier string) splitCase {
 			o.Xattrs = map[string]string{gal.Pick(r, []string{"user.a", "security.capability"}): gal.Pick(r, []string{"", "v", "\x00\x01"})}
 		}
 		perm := gal.Pick(r, []uint32{0o644, 0o755, 0o600, 0o4755, 0o1777, 0o700})
-		switch x := r.Intn(10); {
+		switch x := r.Intn(12); {
 		case x < 4:
 			o.Kind, o.Mode = "dir", perm
 			if r.Bool() {
@@ -343,13 +391,14 @@ func genSplit(r *gal.Rand, i int, tier string) splitCase {
 				o.Via = "hdr"
 			}
 		default:
-			if owned && len(regs[o.Pkg]) > 0 {
+			if owned && len(regs[o.Pkg]) > 0 && x < 11 {
 				t := gal.Pick(r, regs[o.Pkg])
 				if !tarcase.WalkLess(t, p) { // stay inside the C06 envelope (target first)
 					used[p] = false
 					continue
 				}
 				o.Kind, o.Via, o.Target, o.Xattrs, o.UID, o.GID = "link", "hdr", t, nil, 0, 0
+				regs[o.Pkg] = append(regs[o.Pkg], p) // a later link may name this link
 			} else {
 				o.Kind, o.Mode, o.Xattrs = "chr", perm&0o777, nil
 				o.Maj, o.Min = uint32(r.Intn(300)), uint32(r.Intn(300))
